@@ -360,7 +360,7 @@ def main():
                     for lab, rx in NEW_CONSTRUCTS:
                         if rx.search(src_i):
                             hist["A_uses_" + lab] += 1
-                    if map_has_meta(progs[i][1]):
+                    if map_has_meta(progs[i][1]["d"]) or map_has_meta(progs[i][1]["e"]):
                         hist["A_context_map_holds_metachar_string"] += 1
                     if re.search(r"\{(?:&#x27;|&quot;)", out):
                         hist["A_output_prints_a_map_with_string_keys"] += 1
@@ -615,7 +615,7 @@ def main():
 
     chk.cov["evaluations"] = evaluations
     chk.cov["distinct_nontrivial"] = len(nontriv)
-    chk.cov["rule"] = ("A: typed random programs (depth 2-4, metacharacter string literals) x contexts of metacharacter strings under 5 auto-escaped template names, engine (debug+release) vs "
+    chk.cov["rule"] = ("A: typed random programs (depth 2-4, metacharacter string literals, map literals / lookups / loops over maps and |items / printing of whole maps and lists / unpacking set and with) x contexts of metacharacter strings - also as values, nested values and keys of the map variables - under 5 auto-escaped template names, engine (debug+release) vs "
                        "extracted interpreter with esc=true, plus the no-raw-metacharacter oracle on the engine output; A': same oracle, wild contexts (metacharacter strings/lists in every variable, "
                        "html includes); B: generated bodies printed through 15 capture routes vs direct; C: every registered filter x 11 operands x 20 argument shapes, then pairs; D: a family of template names (prefix x extension x ignored-suffix shapes incl. empty stems, upper case, trailing dots, NUL, backslash, non-ASCII, plus random names) "
                        "rendered directly and through include / extends / import from a template of another mode, compared with the proved name->mode model. "
